@@ -105,10 +105,42 @@ AdmissibleRun(n0, out, consumed, allocated) ==
   /\ out = "ok" => consumed <= n0
   /\ allocated <= K * n0 + C
 
+\* a sequence of `steps` decodes/accesses/writes over one input: each within the bound
+AdmissibleSeq(n0, steps, allocated) == allocated <= steps * (K * n0 + C)
+
 \* PrefixFails: the decoder is deterministic, so on a strict prefix of an input
 \* whose complete decode consumed c bytes it issues the same fetches until one
 \* reaches past the cut -- which FetchOK refuses.  (Checked on the machine by
 \* MC_FailClosed; instantiated per event by the trace spec.)
 PrefixRunOK(cut, consumedFull, olderComplete, out) ==
   (cut < consumedFull /\ cut \notin olderComplete) => out = "failed"
+
+(***************************************************************************)
+(* Type tags.  A tagged object starts with a code that selects its decoder *)
+(* from a registry.  A code the registry does not hold has no decoder: the *)
+(* decode of an input carrying it at a tag position fails (it is never     *)
+(* skipped, read as a nil object or read as some other type).              *)
+(***************************************************************************)
+TagRunOK(code, registry, out) == (code \notin registry) => out = "failed"
+
+(***************************************************************************)
+(* Second stage.  An object returned by the first stage may keep bytes it  *)
+(* has not decoded yet (a table, a record stream, a compressed blob) and   *)
+(* decode them when an accessor first needs them.  That decode is a decode *)
+(* like any other: of the bytes kept, deterministic, fail closed.  The     *)
+(* design (LazyStage.tla, checked by MC_LazyStage): parse first, publish   *)
+(* and drop the raw bytes only after the parse succeeded; so              *)
+(*   - an access that failed fails again when repeated (nothing was        *)
+(*     published, the same bytes are parsed again),                        *)
+(*   - writing the object after a failed access emits the raw bytes, so    *)
+(*     the written object still fails on that access.                      *)
+(* One observed call sequence on ONE object, for one accessor A:           *)
+(*   r1 = A, r2 = A again, w = Write, r3 = A on the decoded written bytes  *)
+(* ("none" = not reached, "undecodable" = the written bytes do not decode) *)
+(***************************************************************************)
+LazySeqOK(r1, r2, w, r3) ==
+  /\ r1 \in {"ok", "failed", "none"} /\ r2 \in {"ok", "failed", "none"}
+  /\ w \in {"ok", "failed", "none"} /\ r3 \in {"ok", "failed", "none", "undecodable"}
+  /\ r1 = "failed" => r2 = "failed"         \* StickyFailure
+  /\ r1 = "failed" => r3 # "ok"             \* NoLaundering
 =============================================================================
